@@ -136,8 +136,18 @@ the values are compared with on the real engines is tie B: the reference evaluat
 theorem events_carry_actual_params_results (E : Engine) (C : Cfg) (fr : Forest) :
     (∀ f a s, Event.before f a s ∈ events E C fr → (f, a) ∈ calls fr) ∧
     (∀ f v, Event.after f v ∈ events E C fr → (f, Outcome.ret v) ∈ outs fr) :=
-  ⟨fun f a s h => run_isEventOf E C fr true [] (.before f a s) h,
+  ⟨fun f a s h => (run_isEventOf E C fr true [] (.before f a s) h).1,
    fun f v h => run_isEventOf E C fr true [] (.after f v) h⟩
+
+/-- `stack_iterator_starts_at_callee` (a first part of `stack_iterator_is_chain`): for every engine variant whose stack
+iterator yields at least one frame (`stackCap ≠ some 0`; all three variants), every forest and listener assignment, the
+first frame the iterator handed to `Before` yields is the function being called. -/
+theorem stack_iterator_starts_at_callee (E : Engine) (C : Cfg) (fr : Forest) (hc : E.stackCap ≠ some 0) :
+    ∀ f a s, Event.before f a s ∈ events E C fr → s.head? = some f :=
+  fun f a s h => (run_isEventOf E C fr true [] (.before f a s) h).2 hc
+
+/-- the hypothesis holds for the three engine variants of the model -/
+example : interpAsIs.stackCap ≠ some 0 ∧ wazevoAsIs.stackCap ≠ some 0 ∧ repaired.stackCap ≠ some 0 := by decide
 
 /-- the statement is not vacuous: the stream of the tail-call sample has both kinds of event -/
 example : Event.before 2 [3] [2, 1] ∈ events repaired allOn tail12 ∧ Event.after 2 [10] ∈ events repaired allOn tail12 := by
@@ -145,7 +155,7 @@ example : Event.before 2 [3] [2, 1] ∈ events repaired allOn tail12 ∧ Event.a
 
 /-
 Not proved here (left out for time; covered by ties B and C on the real code):
-* `stack_iterator_is_chain`: in the model the snapshot at a `Before` is `snapshot E (f :: st)` where `st` is the chain of the
+* `stack_iterator_is_chain` (beyond `stack_iterator_starts_at_callee` above): in the model the snapshot at a `Before` is `snapshot E (f :: st)` where `st` is the chain of the
   enclosing calls of the same call engine, all frames with or without listener, by construction of `run`;
   `subset_events_are_projection` shows it does not depend on the listener set, `wazevo_stack_truncated_witness` shows the
   as-is compiler truncates it (F30). The harness monitor `chainMonitor` checks it against the open-call stack of the real stream.
